@@ -85,10 +85,39 @@ def build(cls, init, path):
     return s
 
 
+class _PrefixBuilder:
+    """re-builds states from (init, path) sharing common prefixes with the previously built path:
+    a stack of clones, one per prefix length; each event is executed on a clone of its predecessor"""
+
+    def __init__(self, cls):
+        self.cls = cls
+        self.init = object()
+        self.path = []
+        self.stack = []
+
+    def get(self, init, path):
+        if init != self.init or not self.stack:
+            self.init = init
+            self.path = []
+            self.stack = [self.cls(init)]
+        lcp = 0
+        while lcp < len(path) and lcp < len(self.path) and path[lcp] == self.path[lcp]:
+            lcp += 1
+        del self.stack[lcp + 1:]
+        self.path = list(path[:lcp])
+        for ev in path[lcp:]:
+            s = self.stack[-1].clone()
+            s.step(ev)
+            self.stack.append(s)
+            self.path.append(ev)
+        return self.stack[-1]
+
+
 def _expand_chunk(cls, chunk):
     out = []
+    pb = _PrefixBuilder(cls)
     for sid, init, path in chunk:
-        base = build(cls, init, path)
+        base = pb.get(init, path)
         evs = base.events()
         for ev in evs:
             s = base.clone()
@@ -98,12 +127,13 @@ def _expand_chunk(cls, chunk):
 
 
 def _replay_chunk(cls, chunk):
+    """every newly discovered state is re-built in another process from a fresh initial object (prefixes shared
+    inside the chunk) and must reproduce the key found during expansion"""
     out = []
+    pb = _PrefixBuilder(cls)
     for init, path, key in chunk:
-        s = build(cls, init, path)
-        k1 = h(s.key())
-        s2 = build(cls, init, path)
-        out.append((k1 == key and h(s2.key()) == key, init, path))
+        s = pb.get(init, path)
+        out.append((h(s.key()) == key, init, path))
     return out
 
 
